@@ -139,6 +139,21 @@ class StmtMixin:
                     e = Exc(h.cls, (), origin=n.lineno)
                     e.ref = v
                     v = e
+            if isinstance(v, Sym) and v.k == "obj":
+                # `raise <opaque value>`: an exception object of unknown class, or (if it can be None)
+                # Python's own TypeError "exceptions must derive from BaseException"
+                from .smt import host_const
+                outs = []
+                for s2, is_none in self.fork_bool(s, v.t == host_const(None)):
+                    if is_none:
+                        outs.append((s2, Raised(Exc(TypeError, ("exceptions must derive from BaseException",), origin=n.lineno))))
+                    else:
+                        e = Exc(None, (), tag=f"raise {v.t}", within=BaseException, origin=n.lineno)
+                        e.sym = v
+                        outs.append((s2, Raised(e)))
+                return outs
+            if v is None:
+                return [(s, Raised(Exc(TypeError, ("exceptions must derive from BaseException",), origin=n.lineno)))]
             if not isinstance(v, Exc):
                 raise Unsupported(f"raise of non-exception value {v!r}", n)
             if v.origin is None:
